@@ -4,8 +4,8 @@ from __future__ import annotations
 
 import copy
 
-from .core import outcome, octs, after_pack
-from .probe import decode_other
+from .core import outcome, octs, after_pack, rxbuf
+from .probe import decode_other, poison, twin
 
 KIND_ORDER = ["eof", "finished", "ack", "metadata", "nak", "prompt", "keepalive", "filedata"]
 
@@ -254,7 +254,7 @@ def op_cfdphdr_rt(a):
         raw = o.pack()
 
         def rest():
-            d = PduHeader.unpack(bytes(raw) + bytes(a["sfx"]))
+            d = PduHeader.unpack(rxbuf(raw, a["sfx"]))
             decode_other("cfdphdr", PduHeader.unpack)
             return {"octets": octs(raw), "hlen": o.header_len, "plen": o.packet_len, "cfglen": cfglen,
                     "rawlen": AbstractPduBase.header_len_from_raw(bytes(raw)), "dec": proj_hdr(d), "dhlen": d.header_len,
@@ -287,7 +287,7 @@ def op_lv_rt(a):
         raw = o.pack()
 
         def rest():
-            d = CfdpLv.unpack(bytes(raw) + bytes(a["sfx"]))
+            d = CfdpLv.unpack(rxbuf(raw, a["sfx"]))
             return {"octets": octs(raw), "plen": o.packet_len, "dec": octs(d.value), "dplen": d.packet_len}
         return after_pack(raw, rest)
     return outcome(run)
@@ -311,7 +311,7 @@ def op_tlv_rt(a):
         raw = o.pack()
 
         def rest():
-            d = CfdpTlv.unpack(bytes(raw) + bytes(a["sfx"]))
+            d = CfdpTlv.unpack(rxbuf(raw, a["sfx"]))
             decode_other("tlv", CfdpTlv.unpack)
             return {"octets": octs(raw), "plen": o.packet_len, "dec": {"t": int(d.tlv_type), "v": octs(d.value)},
                     "dplen": d.packet_len, "eq": bool(d == o)}
@@ -366,8 +366,8 @@ def _via(cls, raw, via):
     from spacepackets.cfdp.tlv import CfdpTlv, TlvHolder
     c = ctlv_class(cls)
     if via == "unpack":
-        return c.unpack(bytes(raw))
-    generic = CfdpTlv.unpack(bytes(raw))
+        return c.unpack(raw if isinstance(raw, (bytes, bytearray)) else bytes(raw))
+    generic = CfdpTlv.unpack(raw if isinstance(raw, (bytes, bytearray)) else bytes(raw))
     if via == "from_tlv":
         return c.from_tlv(generic)
     h = TlvHolder(generic)
@@ -387,7 +387,7 @@ def _ctlv_rt_body(a, o):
         raw = o.pack()
 
         def rest():
-            d = _via(a["cls"], bytes(raw) + bytes(a["sfx"]), a.get("via", "unpack"))
+            d = _via(a["cls"], rxbuf(raw, a["sfx"]), a.get("via", "unpack"))
             decode_other("ctlv:" + a["cls"], lambda b: _via(a["cls"], b, a.get("via", "unpack")))
             if type(d) is not ctlv_class(a["cls"]):
                 return {"wrongclass": type(d).__name__}
@@ -417,7 +417,23 @@ def op_ctlv_mismatch(a):
 
 def op_pdu_rt(a):
     def run():
+        poison("pdu")
         mk = mk_pdu_via_setters if a.get("via") == "setter" else mk_pdu
+
+        def _mut(t):
+            from spacepackets.cfdp.defs import LargeFileFlag, CrcFlag
+            o = t[0]
+            o.pack()
+            for name, val in (("file_data", b"\x77\x77\x77"), ("segment_requests", [(1, 2), (3, 4)]), ("options", None),
+                              ("source_file_name", "twin"), ("file_store_responses", [])):
+                if hasattr(type(o), name):
+                    setattr(o, name, val)
+            h = o.pdu_header
+            h.pdu_conf.crc_flag = CrcFlag(1 - int(h.pdu_conf.crc_flag))
+            h.pdu_conf.file_flag = LargeFileFlag(1 - int(h.pdu_conf.file_flag))
+            h.pdu_conf.source_entity_id.value = 0
+            h.pdu_data_field_len = 1
+        twin(lambda: mk_pdu(a["kind"], a["cfg"], a["p"]), _mut)
         obj, conf, params, snap = mk(a["kind"], a["cfg"], a["p"])
         plen = obj.packet_len
         dflen = obj.pdu_data_field_len
@@ -428,7 +444,7 @@ def op_pdu_rt(a):
 
     def rest(obj, conf, params, snap, plen, dflen, hlen, raw):
         caller = _snapshot(conf, params) == snap
-        d = pdu_class(a["kind"]).unpack(bytes(raw) + bytes(a["sfx"]))
+        d = pdu_class(a["kind"]).unpack(rxbuf(raw, a["sfx"]))
         decode_other("pdu:" + a["kind"], pdu_class(a["kind"]).unpack)
         return {"octets": octs(raw), "plen": plen, "dflen": dflen, "hlen": hlen, "dec": proj_pdu(d),
                 "dplen": d.packet_len, "ddflen": d.pdu_data_field_len, "eq": bool(d == obj) and bool(obj == d),
@@ -462,7 +478,7 @@ def op_pdu_fac(a):
 
     def rest(obj, raw):
         from spacepackets.cfdp.pdu.helper import PduFactory
-        buf = raw + bytes(a["sfx"])
+        buf = rxbuf(raw, a["sfx"])
         d = PduFactory.from_raw(buf)
         if d is None:
             return {"cls": "none"}
